@@ -63,6 +63,8 @@ type variablesMappingVisitor struct {
 	mapping               map[string]string
 	variables             []*variableItem
 	operationRef          int
+	// reservedNames holds the names of variables that are not remapped (file uploads)
+	reservedNames map[string]struct{}
 }
 
 type variableItem struct {
@@ -131,6 +133,11 @@ func (v *variablesMappingVisitor) EnterArgument(ref int) {
 		// We should not change file upload variables, because uploads won't work
 		// Having file or files names for the variable is a requirement for the file upload spec
 		// https://github.com/jaydenseric/graphql-multipart-request-spec
+		// its name stays in use, so it must not be handed out as a mapping name
+		if v.reservedNames == nil {
+			v.reservedNames = make(map[string]struct{})
+		}
+		v.reservedNames[string(varNameBytes)] = struct{}{}
 		return
 	}
 
@@ -159,6 +166,7 @@ func (v *variablesMappingVisitor) EnterDocument(operation, definition *ast.Docum
 	v.operation, v.definition = operation, definition
 	v.mapping = make(map[string]string, len(operation.VariableDefinitions))
 	v.variables = make([]*variableItem, 0, len(operation.VariableDefinitions))
+	v.reservedNames = nil
 }
 
 func (v *variablesMappingVisitor) EnterOperationDefinition(ref int) {
@@ -182,7 +190,8 @@ func (v *variablesMappingVisitor) generateUnusedVariableMappingName() []byte {
 				out[k] = alphabet[j]
 			}
 			_, exists := v.mapping[string(out)]
-			if !exists {
+			_, reserved := v.reservedNames[string(out)]
+			if !exists && !reserved {
 				return out
 			}
 		}
